@@ -5,6 +5,6 @@ C05 — the digest of the regenerated tables the model runs with (shared by the 
 -/
 namespace C05
 
-def theFacts : RFacts := RFacts.ofTables Facts.ctxFields Facts.redirectFields Facts.lifecycle
+def theFacts : RFacts := RFacts.ofTables Facts.ctxFields Facts.redirectFields Facts.sendFileCompared Facts.lifecycle
 
 end C05
